@@ -126,7 +126,7 @@ Proof.
       destruct (eval_list_good _ (IHe lvar_mode) _ _ _ _ W H1) as (E1 & L1 & W1 & G1).
       destruct (find_sub f P) as [sb|]; [|discriminate].
       destruct (s_ret sb); [|discriminate].
-      bind_inv H as [r σ2] H2. destruct r as [lr|]; [|discriminate]. inversion H; subst.
+      bind_inv H as [r σ2] H2. destruct r as [|lr|st]; try discriminate. inversion H; subst.
       destruct (IHc _ _ _ _ _ W1 H2) as (E2 & G2 & W2 & L2).
       splits; auto.
       * eapply ext_trans; [eapply ext_weaken; [|exact E1] | exact E2].
@@ -151,7 +151,7 @@ Proof.
         eapply ext_weaken; [|exact E1]. apply wle_wmb_lg.
       * inversion H; subst. splits; auto. discriminate.
     + (* SSet *)
-      destruct x as [k|k|ob h|j].
+      destruct x as [k|k|ob h|ob h fk|j].
       * destruct (lookup k (locals σ)) as [l|] eqn:Ek; [|discriminate].
         bind_inv H as lv Hlv. destruct (valid_stmt_expr (type_of lv) e); [|discriminate].
         bind_inv H as [r σ1] H1. bind_inv H as σ2 H2. inversion H; subst.
@@ -177,11 +177,19 @@ Proof.
         destruct (store_header_good Os ob h hv σ1 W1) as (E2 & W2).
         splits; auto; [|discriminate].
         eapply ext_trans; [|exact E2]. eapply ext_weaken; [|exact E1]. apply wle_wmb_lg.
+      * destruct (valid_stmt_expr TStr e); [|discriminate].
+        bind_inv H as [r σ1] H1. bind_inv H as rv Hrv. bind_inv H as hv Hhv. inversion H; subst.
+        destruct (IHe lvar_mode _ _ _ _ W H1) as (E1 & L1 & W1 & G1).
+        destruct (store_field_good Os ob h fk hv σ1 W1) as (E2 & W2).
+        splits; auto; [|discriminate].
+        eapply ext_trans; [|exact E2]. eapply ext_weaken; [|exact E1]. apply wle_wmb_lg.
       * discriminate.
     + (* SUnset *)
-      destruct x; try discriminate. inversion H; subst. splits; [| |discriminate].
-      * apply ext_fields; auto. discriminate.
-      * eapply wf_same; eauto.
+      destruct x; try discriminate.
+      * inversion H; subst. splits; [| |discriminate].
+        -- apply ext_fields; auto. discriminate.
+        -- eapply wf_same; eauto.
+      * inversion H; subst. destruct (unset_field_good o0 h k σ W) as (E2 & W2). splits; auto. discriminate.
     + (* SLog *)
       bind_inv H as [l σ1] H1. bind_inv H as v Hv. inversion H; subst.
       destruct (IHe dflt_mode _ _ _ _ W H1) as (E1 & L1 & W1 & G1).
@@ -204,11 +212,12 @@ Proof.
       bind_inv H as [ls σ1] H1.
       destruct (eval_list_good _ (IHe lvar_mode) _ _ _ _ W H1) as (E1 & L1 & W1 & G1).
       destruct (find_sub f P) as [sb|]; [|discriminate].
-      bind_inv H as [r σ2] H2. inversion H; subst.
+      bind_inv H as [r σ2] H2.
       destruct (IHc _ _ _ _ _ W1 H2) as (E2 & G2 & W2 & L2).
-      splits; auto; [|discriminate].
-      eapply ext_trans; [eapply ext_weaken; [|exact E1]; apply wle_wmb_lg|].
-      eapply ext_weaken; [|exact E2]. reflexivity.
+      assert (E : ext WLG σ σ2).
+      { eapply ext_trans; [eapply ext_weaken; [|exact E1]; apply wle_wmb_lg|].
+        eapply ext_weaken; [|exact E2]. reflexivity. }
+      destruct r; inversion H; subst; splits; auto; discriminate.
     + (* SReturn *)
       destruct fn.
       * destruct e as [e|]; [|discriminate].
@@ -219,6 +228,29 @@ Proof.
         -- intros l0 d Hd. inversion Hd; subst. auto.
       * destruct e; [discriminate|]. inversion H; subst.
         splits; auto using ext_refl. discriminate.
+    + (* SReturnState *)
+      destruct fn; [discriminate|]. inversion H; subst. splits; auto using ext_refl. discriminate.
+    + (* SNop *)
+      inversion H; subst. splits; auto using ext_refl. discriminate.
+    + (* SSwitch *)
+      bind_inv H as [lc σ1] H1. bind_inv H as vc Hvc.
+      bind_inv H as [r σ3] H3. bind_inv H as [o4 σ4] H4. inversion H; subst.
+      destruct (IHe dflt_mode _ _ _ _ W H1) as (E1 & L1 & W1 & G1).
+      assert (E0 : ext WLG σ σ1) by (eapply ext_weaken; [|exact E1]; apply wle_wmb_lg).
+      set (σ2 := set_heap (heap σ1 ++ [VStr (render Os vc) false false]) σ1) in *.
+      assert (W2 : wf σ2) by (apply wf_grow; auto).
+      assert (E2 : ext WLG σ1 σ2) by apply ext_grow.
+      pose proof (run_block_good _ (IHx fn)) as GB.
+      destruct (sw_try_good Os _ (render Os vc) dflt GB _ _ _ _ _ W2 H3) as (E3 & W3 & L3).
+      assert (K : ext WLG σ3 σ' /\ wf σ' /\ (forall l d, o4 = OVal l d -> l < length (heap σ'))).
+      { destruct r as [o|].
+        - inversion H4; subst. splits; auto using ext_refl. intros l d Hd. eapply L3; eauto.
+        - destruct dflt as [k|].
+          + eapply (sw_nth_good _ GB); eauto.
+          + inversion H4; subst. splits; auto using ext_refl. discriminate. }
+      destruct K as (E4 & W4 & L4). splits; auto.
+      * eapply ext_trans; [exact E0|]. eapply ext_trans; [exact E2|]. eapply ext_trans; eauto.
+      * intros l d Hd. destruct o4; simpl in Hd; try discriminate. inversion Hd; subst. eapply L4; eauto.
   (* ------------------------------------------------------------------ call *)
   - intros sb args σ r σ' W H. simpl in H.
     bind_inv H as σ1 Hb.
@@ -244,16 +276,15 @@ Proof.
         + destruct (A8 _ _ Hk) as [Hk'|Hk']; [discriminate | simpl in Hk'; lia].
         + apply Hn. exists k. rewrite A2 in Hk. exact Hk. }
     assert (Hres : forall l d, o = OVal l d -> l < length (heap σ3)) by (intros; simpl; eauto).
-    destruct (s_ret sb) as [rt|]; destruct o as [| |l d]; try discriminate.
-    + destruct d.
-      * bind_inv H as [l' σ4] Hc. inversion H; subst.
-        destruct (convert_good Os _ _ _ _ _ W3 Hc) as (E4 & L4 & W4 & G4 & _).
-        splits; auto.
-        -- eapply ext_trans; [exact E3|]. eapply ext_weaken; [|exact E4]. reflexivity.
-        -- intros l0 Hl0. inversion Hl0; subst. auto.
-      * inversion H; subst. splits; auto. intros l0 Hl0. inversion Hl0; subst. eapply Hres; eauto.
-    + inversion H; subst. splits; auto. discriminate.
-    + inversion H; subst. splits; auto. discriminate.
+    destruct (s_ret sb) as [rt|]; destruct o as [| |l d|st]; try discriminate;
+      try (inversion H; subst; splits; auto; discriminate).
+    destruct d.
+    + bind_inv H as [l' σ4] Hc. inversion H; subst.
+      destruct (convert_good Os _ _ _ _ _ W3 Hc) as (E4 & L4 & W4 & G4 & _).
+      splits; auto.
+      * eapply ext_trans; [exact E3|]. eapply ext_weaken; [|exact E4]. reflexivity.
+      * intros l0 Hl0. inversion Hl0; subst. auto.
+    + inversion H; subst. splits; auto. intros l0 Hl0. inversion Hl0; subst. eapply Hres; eauto.
 Qed.
 
 End Main.
